@@ -30,6 +30,57 @@ def truthy_atom(test):
     return U(test)
 
 
+def check_policy_table_freshness(ctx):
+    """C03.R10: the policy parser builds one operation table per object type / one section table per policy: a container stored under a key
+    inside a loop, and filled inside that loop, is allocated inside that loop."""
+    from ..astutil import get_function, all_functions
+    POLICYF = 'kmip/core/policy.py'
+    ctx.rule('C03.R10', 'in the policy parser a table that is filled inside a loop and stored under a per-iteration key is allocated inside that iteration: the entries of different object types / sections / policies do not share one mutable table (a shared table grants one type the permissions written for another)')
+    t = ctx.src.tree(POLICYF)
+    n_sites = 0
+    ALLOC = ('dict', 'list', 'set', 'collections.OrderedDict', 'OrderedDict')
+    for qn, fn, cls in all_functions(t):
+        loops = [x for x in walk_local(fn) if isinstance(x, (ast.For, ast.While))]
+        if not loops:
+            continue
+        g = CFG(fn)
+        rd = ReachingDefs(g)
+        for lp in loops:
+            body = set(id(x) for st in lp.body for x in ast.walk(st))
+            for st in lp.body:
+                for x in ast.walk(st):
+                    # R[k] = V   /  R.append(V) / R.setdefault(k, V)
+                    v = None
+                    if isinstance(x, ast.Assign) and len(x.targets) == 1 and isinstance(x.targets[0], ast.Subscript) and isinstance(x.value, ast.Name):
+                        v = x.value
+                    elif isinstance(x, ast.Call) and isinstance(x.func, ast.Attribute) and x.func.attr in ('append', 'add', 'setdefault', 'update') and x.args and isinstance(x.args[-1], ast.Name):
+                        v = x.args[-1]
+                    if v is None:
+                        continue
+                    node = node_of_expr(g, x)
+                    if node is None:
+                        continue
+                    allocs = []
+                    for var, val, dn in rd.reaching(node, v.id):
+                        if isinstance(val, (ast.Dict, ast.List, ast.Set)) or (isinstance(val, ast.Call) and call_name(val) in ALLOC and not val.args):
+                            allocs.append((val, dn))
+                    if not allocs:
+                        continue
+                    n_sites += 1
+                    # is the container filled inside this loop?
+                    filled = [y for y in body if False]
+                    fills = [y for st2 in lp.body for y in ast.walk(st2)
+                             if (isinstance(y, ast.Subscript) and isinstance(y.ctx, ast.Store) and isinstance(y.value, ast.Name) and y.value.id == v.id)
+                             or (isinstance(y, ast.Call) and isinstance(y.func, ast.Attribute) and isinstance(y.func.value, ast.Name) and y.func.value.id == v.id
+                                 and y.func.attr in ('append', 'add', 'update', 'setdefault', 'extend', 'insert'))]
+                    outside = [val for val, dn in allocs if id(val) not in body]
+                    site = '%s:%s %s' % (POLICYF, x.lineno, qn)
+                    ctx.check(not (fills and outside), 'C03.R10', '%s|%s stored per iteration' % (qn, v.id), site,
+                              '%s is allocated inside the loop that fills and stores it' % v.id,
+                              '%s is allocated at line %s, outside the loop at line %d that fills it and stores it under a per-iteration key: every key then refers to the same table, holding the union of all entries' % (v.id, [o.lineno for o in outside], lp.lineno))
+    ctx.count('policy_parser_per_iteration_tables', n_sites, 2)
+
+
 def run(ctx):
     src = ctx.src
     m = EngineModel(src)
@@ -641,5 +692,6 @@ def run(ctx):
     ctx.check(ok9, 'C03.R9', 'KmipEngine._process_locate|result-provenance', lsite,
               'returned identifiers are str(x.unique_identifier) of elements derived from the access-filtered list only',
               'Locate can return identifiers that do not come from the access-filtered list')
+    check_policy_table_freshness(ctx)
     ctx.not_decided += ["SQLAlchemy filter(...).one() returning the row with that identifier", 'the content of operation policies at run time']
     ctx.assumptions += ['pie objects are only obtainable from the session (queries) or constructors', 'T_ACCESS_OP transcribes the property statement and the KMIP policy model']
